@@ -6,8 +6,8 @@ COMP = Component(
     tiers={
         'quick': dict(design_cfg='MaintMC_small.cfg', sim_num=2400, sim_depth=70, seeds_per_behaviour=2,
                       rnd_num=1500, rnd_len=30, design_timeout=900),
-        'thorough': dict(design_cfg='MaintMC_thorough.cfg', sim_num=32000, sim_depth=90, seeds_per_behaviour=3,
-                         rnd_num=30000, rnd_len=60, design_timeout=3000),
+        'thorough': dict(design_cfg='MaintMC_thorough.cfg', sim_num=10000, sim_depth=90, seeds_per_behaviour=3,
+                         rnd_num=12000, rnd_len=60, design_timeout=3000),
     },
     rule='design: TLC exhaustive over MaintMC within the cfg bounds (every request stream over three scripted targets, '
          'four maintainer capacities, four hook programs, every tie-break between simultaneous events); code: every TLC '
